@@ -91,6 +91,19 @@ def gen(rng, tier):
         src, kinds = overlapping(rng)
         yield {"k": "norm", "from": src, "opts": [opt("PathSep", ".")], "repeat": rep, "_tag": "order/" + "+".join(sorted(kinds)),
                "_nt": True, "_sig": "%s|%d" % ("+".join(sorted(kinds)), len(src["m"]))}
+    # a small address space spelled in every way at once: two to four entries whose names are prefixes of each other (also
+    # through list indices, index 0 of a primitive included) with values of every shape (null, scalars, empty and non-empty
+    # objects and lists)
+    orng = rng.fork("random-overlap")
+    NAMES = ["a", "a.0", "a.b", "a.0.0", "a.0.b", "a.b.0", "a.1", "a.b.c"]
+    def shape():
+        return orng.pick([lambda: None, lambda: None, lambda: U(1 + orng.below(3)), lambda: S("s"), lambda: M([("b", U(5))]), lambda: M([("b", None)]),
+                          lambda: A([U(6)]), lambda: A([None]), lambda: A([]), lambda: M([]), lambda: A([M([("b", U(7))])]), lambda: M([("0", U(8))])])()
+    for _ in range(n // 2):
+        ks = orng.shuffle(NAMES)[:2 + orng.below(3)]
+        src = M([(k, shape()) for k in ks])
+        yield {"k": "norm", "from": src, "opts": [opt("PathSep", ".")], "repeat": rep, "_tag": "order/random-overlap",
+               "_nt": True, "_sig": "rov|%s|%s" % (",".join(sorted(ks)), ",".join(sorted(json.dumps(v)[:12] for _, v in src["m"])))}
     # references: one Unpack of a whole config whose settings reference each other must not depend on which setting
     # the runtime visits first (mutually defaulting settings are the open known finding D17 and are left out)
     from . import c08
